@@ -61,6 +61,22 @@ CLAIMED["C06"] = ("Bounded symbolic model checking of both codecs on natural-lan
          "Texts longer than the stated symbolic lengths are outside the claim. Gob half is relative to the gob model (see C03).",
          "7 C06")
 
+CLAIMED["C04"] = ("Bounded symbolic model checking of every decoding entry point found in the current source (all UnmarshalJSON/UnmarshalText/GobDecode/UnmarshalBinary methods with a []byte parameter plus the package-level UnmarshalJSON and GobDecode, about 75): RAW - 0, 1 and 2 (thorough 3) completely unconstrained input bytes through the real fastjson parser and text unmarshalers (gob entry points: 0-1 bytes, 2 in thorough); SKEL - documents of 13 type families in which each term the decoders look up (harvested from the source) carries one of 21 values of unexpected kinds; HOLE - an unconstrained 1-2 (thorough 3) byte hole as the value of a term, as a member name and between members; DEEP - 40-fold nesting; GOB - valid streams carrying arbitrary small property maps, lists, scalars and pair lists at every GobDecode entry point. Asserted: no panic (interpreter detects run-time panics), every path terminates within the instruction budget, and whatever is returned can be inspected, compared and re-encoded in both codecs without panicking.",
+         "Time and memory proportional to the input is not decided (no cost model; a path that exceeded the budget would make the run inconclusive). Inputs longer than the stated number of free bytes outside the skeleton/hole families are outside the claim. Gob streams: relative to the gob model - real gob stream parsing is inside the stub; the hostile property maps travel in valid streams so every path is replayed against real gob natively. Formatting (%s/%v) of decoded values is not exercised (fmt's reflection paths are not modelled).",
+         "7 C04")
+CLAIMED["C05"] = ("Bounded symbolic model checking of the JSON decoders against documents produced by an independent writer in the harness (terms taken from the jsonld tags of the current struct definitions): for every type and every tagged field, each value shape (IRI string, embedded object with/without id/type, link, actor, activity, arrays, one-element arrays, single embedded object for list properties; text as plain string or as a language map under termMap; numbers, booleans, instants, xsd durations), in three writer variants (canonical; one-member lists as the bare member / single values as one-element arrays; single texts as language maps); asserted: decoding yields the Go type the document names and exactly the model's properties (field by field, modulo the one-element-list normal form), then encode-decode yields the same value and the bytes no longer change. The 19 mock documents of the repository decode and reach a fixpoint.",
+         "One property per document besides id/type; symbolic id characters and two-byte texts; mock documents are used as they are (no structure-preserving mutation). Same numeric sets as C01.",
+         "7 C05")
+CLAIMED["C07"] = ("Exhaustive over the finite matrix, explored by the symbolic executor: every constant of type ActivityVocabularyType found in the current source (the harness fails if one is missing from, or extra to, the vocabulary table transcribed from the ActivityStreams specification) x {registry, JSON top level, JSON nested in an item position, JSON nested in a list, gob top level, gob nested} x {hooks unset, hooks installed and delegating}: same concrete Go type everywhere, symbolic id and name preserved, type preserved; family tables (ObjectTypes, ActorTypes, ActivityTypes, IntransitiveActivityTypes, LinkTypes, CollectionTypes), IsObject/IsLink/IsCollection and the family's On* helper agree with the specification's family. Names outside the vocabulary: symbolic letter strings of length 1-5 (thorough 6-8) assumed different (ignoring case) from every constant yield an error, nothing or a plain Object.",
+         "Gob contexts are relative to the gob model. Outside-vocabulary names are letters only.",
+         "7 C07")
+CLAIMED["C08"] = ("Two parts. Static, exact: every unsafe.Pointer-to-*T conversion of a *S found in the package's SSA (currently 20 distinct (function, S, T) sites) yields one solver query over the two gc/amd64 layouts (go/types Sizes): is there a byte offset below sizeof(T) outside S, or whose leaf (layout class + jsonld term, items and orderedItems identified) differs? Dynamic, bounded symbolic execution: all 13 To* helpers x 13 source types x pointer/value forms and five On* helpers, on values with every field populated: a conversion is refused with an error, or every field the two types share (by term) reads identical through the view and a write through a pointer view is seen by the original; the interpreter's memory model reports any view larger than its allocation, any access beyond it and any interface value whose itab belongs to another interface type (x.(T), type switch, == on a value stored through a view).",
+         "Layouts are go/types' gc/amd64 sizes, not the compiler's own (they agree for these types: sizes were cross-checked in the design spike with unsafe.Sizeof). The runtime's checkptr is modelled (allocation-straddling rule), not run. One known finding is listed (ToOrderedCollectionPage on a CollectionPage), pinned by an existing test.",
+         "7 C08")
+CLAIMED["C12"] = ("Bounded symbolic execution with a write monitor: a value of every vocabulary type with every field populated (one symbolic id character, a text containing quote, backslash and a symbolic byte), item lists and IRI lists; vpFreeze() marks every object allocated so far and the package's variables read-only in the interpreter; then each of 17 read-only operations (MarshalJSON, GobEncode, ItemsEqual with itself and with a copy, IsNil, NotEmpty, the predicates, GetLink/GetType, DerefItem, OnObject/ToObject/OnActivity/OnCollectionIntf with read-only callbacks, ItemOrderTimestamp, Contains, decoding an unrelated document, natural-language accessors) runs twice: any store into frozen memory is a violation naming the writing function, and both invocations must answer the same. Race-freedom is the corollary: these operations write only memory they allocated themselves, so concurrent readers of one shared value cannot race and compute the sequential results.",
+         "Interleavings are not explored: the claim is write-freedom on every path within the bound, from which race-freedom follows for the argument's heap and the package variables; synchronisation inside the standard library (fmt's pool, gob's type cache) is trusted. GobEncode is relative to the gob model.",
+         "7 C12")
+
 NOT_YET = {}
 
 def main():
